@@ -251,6 +251,13 @@ def main(tier):
                 tasks.append({'kind': 'fixed', 'L': L, 'scale': scale, 'N': N, 'mode': mode, 'cfg': cfg})
                 if scale in (-2, 0, 1, L - 1, L, L + 2):
                     tasks.append({'kind': 'exp', 'L': L, 'scale': scale, 'N': N, 'mode': mode, 'upper': bool((L + N) % 2)})
+    # 19/20-digit coefficients (around i64::MAX / u64::MAX): a thin slice of scales and precisions
+    for L in (19, 20):
+        for scale in (-2, 0, 1, 5, L - 1, L, L + 2):
+            for N in (0, 1, 3, L - 2, L + 1):
+                tasks.append({'kind': 'fixed', 'L': L, 'scale': scale, 'N': N, 'mode': mode, 'cfg': cfg})
+                if N <= L and scale in (0, 5, L):
+                    tasks.append({'kind': 'exp', 'L': L, 'scale': scale, 'N': N, 'mode': mode, 'upper': bool(N % 2)})
     lim = cfg['FMT_MAX_INTEGER_PADDING']
     for scale in (-(lim - 3), -(lim - 1), -lim, -(lim + 1), -(lim + 40)):
         for N in (0, 1, 2, 5):
